@@ -697,6 +697,35 @@ func (t *TS) branch(s *State, ifi *ssa.If) (*State, *State) {
 	}
 	setBool(tv, true)
 	setBool(fv, false)
+	// "v, listed := table[k]; if listed": in a package-level table of status constants that only its initialiser
+	// fills, a listed key gives one of the listed constants, an unlisted one the zero value
+	if ex, ok := cond.(*ssa.Extract); ok && ex.Index == 1 {
+		if lk, isL := ex.Tuple.(*ssa.Lookup); isL && lk.CommaOk {
+			if ld, isLd := lk.X.(*ssa.UnOp); isLd && ld.Op == token.MUL {
+				if g, isG := ld.X.(*ssa.Global); isG {
+					if ents, okT := constTable(t.c.P, g); okT && len(ents) > 0 {
+						allNZ, allConst := true, true
+						for _, e := range ents {
+							k, isk := constInt(stripConv(e.val))
+							if !isk {
+								allConst = false
+							} else if k == 0 {
+								allNZ = false
+							}
+						}
+						for _, r := range refs(lk) {
+							if v0, isE := r.(*ssa.Extract); isE && v0.Index == 0 && isTrackedType(v0.Type()) {
+								if allConst && allNZ {
+									tv.Env[v0] = AV{K: KNotInt, I: 0}
+								}
+								fv.Env[v0] = AV{K: KInt, I: 0}
+							}
+						}
+					}
+				}
+			}
+		}
+	}
 	if call, ok := cond.(*ssa.Call); ok {
 		if cal := call.Call.StaticCallee(); cal != nil && cal.Name() == "Equal" && relPkg(cal) == "fh" && len(call.Call.Args) == 2 {
 			pa, oka := t.argPath(s, call.Call.Args[0])
